@@ -22,9 +22,11 @@ package zzc14
 
 import (
 	"context"
+	"encoding/json"
 	"errors"
 	"fmt"
 	"os"
+	"path/filepath"
 	"regexp"
 	"runtime"
 	"sort"
@@ -70,7 +72,7 @@ func StartClock() {
 						f(l, st)
 					}
 					fmt.Fprintf(os.Stderr, "zzc14 watchdog: %s did not finish\n%s\n", l, st)
-					os.Exit(0) // the callback has flushed the cases; the failure is in impl.json
+					os.Exit(3) // the callback has written hang.json: ./check reports that case as the failing input
 				}
 			}
 		}()
@@ -79,6 +81,18 @@ func StartClock() {
 
 // RealMs is wall-clock milliseconds; usable inside a bubble (time.Now is virtual there).
 func RealMs() int64 { return realMs.Load() }
+
+// WriteHang writes $VERIF_OUT/hang.json (read by ./check: the case being run is the failing input).
+func WriteHang(dir, label string, desc any, stacks string) {
+	if len(stacks) > 60000 {
+		stacks = stacks[:60000]
+	}
+	js, _ := json.MarshalIndent(map[string]any{
+		"what": "the case never settled: a goroutine of the code under test is blocked where testing/synctest cannot see it (a lock) or the driver's wait did not end: " + label,
+		"case": desc, "stacks": stacks,
+	}, "", " ")
+	_ = os.WriteFile(filepath.Join(dir, "hang.json"), js, 0o644)
+}
 
 // OnHang installs the function the watchdog calls (from outside the bubble)
 // when an armed wait does not finish: it must record the failure and flush.
